@@ -215,6 +215,7 @@ type World struct {
 	commit            bool // real BeginBlock / EndBlock / Commit of the application around every block
 	begun             bool
 	appHashes         []string
+	endBlockEvents    map[int64][]abci.Event // commit mode: what the application returned from EndBlock, per height
 
 	tracked    map[string]string // addr hex -> name, accounts whose balance is observed
 	trackedOrd []string
@@ -566,6 +567,10 @@ func (w *World) EndBlock(dt time.Duration) (res StepResult) {
 		if w.commit {
 			// the application's own EndBlock: every module's end blocker in the module manager's order
 			resp := w.a.app.EndBlock(abci.RequestEndBlock{Height: w.height})
+			if w.endBlockEvents == nil {
+				w.endBlockEvents = map[int64][]abci.Event{}
+			}
+			w.endBlockEvents[w.height] = resp.Events
 			for _, e := range resp.Events {
 				er := EventRec{Type: e.Type, Attrs: map[string]string{}}
 				for _, at := range e.Attributes {
